@@ -9,8 +9,40 @@ import shutil
 from harness import drive_serial as ds
 
 
+def replay_other(d):
+    """violation files of the parts that do not use the controller traces"""
+    kind = d.get('kind')
+    if kind == 'float-tiling':
+        from harness import float_tiling
+        o = float_tiling.run(d['case'])
+        print(json.dumps({k: o.get(k) for k in ('exc', 'n_expected', 'raw')}, default=str), 'steps:', len(o.get('steps', [])))
+        return 1 if o.get('exc') or len(o.get('steps', [])) != o.get('n_expected') else 0
+    if kind == 'adaptive-run':
+        from harness import adapt_runs
+        o = adapt_runs.run(d['case'])
+        print(json.dumps(dict(exc=o['exc'], attempts=o['att'][:12]), indent=1)[:3000])
+        return 1
+    if kind == 'synthetic-stats':
+        from harness import stats_synth
+        p = stats_synth.compare(d['case'], tuple(d['scale']))
+        print(json.dumps(p, indent=1))
+        return 1 if p else 0
+    if kind == 'hook-set':
+        from harness import hooksets
+        p = hooksets.compare(d['case'], hooksets.run(d['case']))
+        print(json.dumps(p, indent=1))
+        return 1 if p else 0
+    if kind == 'value-semantics':
+        print(json.dumps({k: d[k] for k in ('prog', 'family', 'problems')}, indent=1)[:3000])
+        return 1
+    print(json.dumps(d, indent=1, default=str)[:4000])
+    return 1
+
+
 def replay(path):
     d = json.load(open(path))
+    if 'cfg' not in d or d.get('kind') not in (None, 'trace', 'model'):
+        return replay_other(d)
     cfg, script = d['cfg'], d.get('real_script') or d.get('script') or []
     script = [{k: v for k, v in o.items() if k != 's'} for o in script]
     run = ds.run_one(cfg, script, tid=1, default=dict(res=True))
